@@ -65,7 +65,13 @@ def main():
         sys.stdout.flush()
     sh(f"/venv/bin/python -c \"from harness import common; common.drop_builds_for('{REPO}')\"", cwd=VERIF)
     sh(f"git -C /repo worktree remove --force {REPO}")
-    json.dump(res, open(os.path.join(VERIF, "seeded", "regress.json"), "w"), indent=1)
+    out = os.path.join(VERIF, "seeded", "regress.json")
+    if want and os.path.exists(out):      # a partial run updates the stored table
+        old = json.load(open(out))
+        old.update(res)
+        json.dump(old, open(out, "w"), indent=1)
+    else:
+        json.dump(res, open(out, "w"), indent=1)
     missed = [s for s, v in res.items() if not v.get("detected_with_replay")]
     print(f"{len(res) - len(missed)}/{len(res)} reported with a replay; missed: {missed}")
     return 1 if missed else 0
